@@ -323,11 +323,15 @@ def prop_order(ev):
         if e[0] != 6:
             continue
         name = e[1] + ".key"
-        ren = [j for j in range(i) if ev[j][0] == 12 and ev[j][1] == name]
-        if not ren:
-            return "the attestation for %s was sent before %s had been stored (no rename onto it)" % (e[1], name)
-        j = ren[-1]
-        written = sum(x[2] for x in ev[:j] if x[0] == 11 and x[1] == e[1] + ".tmp")
+        # the store is complete at the last rename onto the final name, or at the last write to it
+        done = [j for j in range(i) if (ev[j][0] == 12 and ev[j][1] == name) or (ev[j][0] == 11 and ev[j][1] == name)]
+        if not done:
+            return "the attestation for %s was sent before %s had been stored" % (e[1], name)
+        j = done[-1]
+        if ev[j][0] == 12:
+            written = sum(x[2] for x in ev[:j] if x[0] == 11 and x[1] == e[1] + ".tmp")
+        else:
+            written = sum(x[2] for x in ev[:j + 1] if x[0] == 11 and x[1] == name)
         opened = [x for x in ev[j + 1:i] if x[0] == 30 and x[1] == name]
         readn = sum(x[2] for x in ev[j + 1:i] if x[0] == 31 and x[1] == name)
         if not opened or readn == 0:
@@ -455,7 +459,14 @@ def pick(rng, count, want):
 
 
 def run(ctx):
-    vplib.gen_consts(ctx)
+    consts_problem = None
+    try:
+        vplib.gen_consts(ctx)
+    except vplib.Violation as v:
+        # a constant the model needs is gone: still run the implementation against the last model so
+        # that a concrete failing input is reported if there is one
+        consts_problem = v
+        ctx.log("constants translator failed, continuing with the previous Consts.v: %s" % v)
     proofs_ok, detail = vplib.check_proofs(ctx)
     ctx.log("proofs:", proofs_ok, detail[:200])
     bins = vplib.cargo_build(ctx, "harness", ["c09"])
@@ -728,5 +739,7 @@ def run(ctx):
         "Model.decode is exact on the image of Model.encode and its prefixes; other JSON texts are outside the model",
         "the host of Model/KeyStore.v (issues on acquire, latches on attest, reports its latch) is the mock's behaviour",
     ]
+    if consts_problem is not None:
+        proofs_ok, detail = False, "constants translator: %s" % consts_problem
     verdict(ctx, proofs_ok, detail, disagreements, failures,
             corr_name="KeyStore.trace crash points vs strace-killed KeyKeeper (key directory, host state, restart)")
